@@ -72,6 +72,14 @@ def cases(rng, tier):
     for i, ch in enumerate(small if tier == "thorough" else small[:: max(1, len(small) // 12)]):
         out.append(dict(members=[{"name": "s%d" % i, "content": G.content_recipe(rng, length=300)}], chain=ch, password=None, header="encoded", target="bytesio", entry="writestr",
                         block=1 + i % 4, chunk=None, volume=None))
+    # two or three small members of machine-code-like bytes behind a branch filter in front of each non-native codec, default block:
+    # a codec that gives the last bytes in a call of their own (PPMd) puts a piece boundary into the filter's last four bytes (fourth hunt)
+    tex = {"X86": "x86dense", "ARM": "arm", "ARMTHUMB": "armt", "POWERPC": "ppc", "SPARC": "sparc"}
+    for i in range(60 if tier == "quick" else 1500):
+        b_ = rng.choice(["X86", "X86", "X86"] + sorted(tex))
+        comp = rng.choice([{"f": "PPMD", "order": 6, "mem": 24}, {"f": "PPMD", "order": 6, "mem": 24}, {"f": "ZSTD", "level": 1}, {"f": "DEFLATE"}, {"f": "BZIP2"}, {"f": "COPY"}])
+        mem = [{"name": "m%d" % j, "content": {"len": rng.randint(1, 70), "tex": tex[b_], "seed": rng.getrandbits(32)}} for j in range(rng.choice([2, 2, 3]))]
+        out.append(dict(members=mem, chain=[{"f": b_}, comp], password=None, header="encoded", target="bytesio", entry="writestr", block=None, chunk=None, volume=None))
     if tier == "thorough":
         # every chain x every boundary length once
         for ch in chains:
